@@ -232,7 +232,9 @@ def run(ctx) -> None:
     else:
         wn = sccfg.nodes_containing(wd_call)[0]
         cts = controlling_tests(sccfg, wn)
-        rep.check("C07.R5", any(lab == "t" and isinstance(t.ast, ast.Name) and t.ast.id == tparam for t, lab in cts), SC, wd_call, "the watchdog is spawned only when a timeout is given", "the watchdog is spawned regardless of `timeout`")
+        from .discharge import implied_at
+
+        rep.check("C07.R5", implied_at(sccfg, wn.id, ast.Name(id=tparam, ctx=ast.Load()), "t"), SC, wd_call, "the watchdog is spawned only when a timeout is given", "the watchdog is spawned regardless of `timeout`")
         targ = [x for x in wd_call.args[1:] if isinstance(x, ast.Name) and x.id == tparam]
         rep.check("C07.R5", bool(targ), SC, wd_call, "the watchdog receives the caller's timeout", "the watchdog does not get the caller's timeout value")
         wcfg = a.cfg(wd)
@@ -251,7 +253,8 @@ def run(ctx) -> None:
             rep.violate("C07.R5", wd, wd.node, "the watchdog never sleeps for the timeout")
         cancels = [n for n in sccfg.live_nodes() if any(call_name(c) == "cancel" for c, _ in a.node_calls(SC, sccfg, n))]
         st_nodes = [n for n in sccfg.live_nodes() if any(c.kind == "func" and c.func is starter for _, c in a.node_calls(SC, sccfg, n))]
-        rep.check("C07.R5", len(cancels) == 1 and bool(st_nodes) and sccfg.dominates(st_nodes[0].id, cancels[0].id) and cancels[0].id not in sccfg.reach([d for d, lab in st_nodes[0].succ if lab == "e"], edge_ok=lambda s, d, lab: lab in ("e", "h")), SC, cancels[0].ast if cancels else SC.node, "the watchdog's scope is cancelled only after the starter completed (a startup that finished is never timed out, one that has not is never cancelled by anything else)", "the watchdog scope is cancelled on some other path, or never")
+        ok_cancel = len(cancels) == 1 and bool(st_nodes) and sccfg.all_paths_pass(sccfg.entry, [cancels[0].id], [x.id for x in st_nodes], edge_ok=normal) and all(cancels[0].id not in sccfg.reach([d for d, lab in x.succ if lab == "e"], edge_ok=lambda s, d, lab: lab in ("e", "h")) for x in st_nodes)
+        rep.check("C07.R5", ok_cancel, SC, cancels[0].ast if cancels else SC.node, "the watchdog's scope is cancelled only after the starter completed (a startup that finished is never timed out, one that has not is never cancelled by anything else)", "the watchdog scope is cancelled on some other path, or never")
     # ------------------------------------------------------------------ R6 registrations survive
     include_rules(ctx, "c02", "C07.R6", only=("C02.R4",))
     rep.assume("anyio: when a child task raises, the task group cancels the remaining children and re-raises at its exit; cancellation is not an Exception subclass")
